@@ -89,6 +89,10 @@ def strategy_(draw, tier):
     opts['exception'] = 'auto'
     opts['max_variants_per_node'] = (7,)
     opts['additional_variants_per_misc'] = (2,)
+    # the tool's own default: after a per-transcript timeout the tool retries with lower
+    # complexity limits, i.e. its output then depends on the wall clock; with the driver's
+    # 60 s a loaded machine produced "differs" that no replay reproduced
+    opts['timeout_seconds'] = 1800
     n = len(records)
     variants = []
     for _ in range(2):
